@@ -559,6 +559,17 @@ func main() {
 			c.InFlight("v6 " + hex.EncodeToString(a[:]))
 			c.Family(fam)
 			roundTrip(c, a[:], spAll)
+			if fam == "v6-single-nibble" {
+				// The ip6.arpa name of the 16 bytes, which for an IPv4-mapped
+				// address is not what the encoder produces: the decoder may
+				// only return the very 16-byte address it spells.
+				spellings(canonV6(a), spAll, func(s string) {
+					c.Family("v6-names")
+					if name(c, s) {
+						c.NontrivialKey("name" + s)
+					}
+				})
+			}
 			if !isMapped(a[:]) {
 				// IPv4-mapped addresses are counted by the IPv4 families.
 				c.NontrivialKey(string(a[:]))
